@@ -35,6 +35,9 @@ def plan(tier, seed):
     rng = random.Random(f"C04k-{seed}")
     for job in jobs:
         for spec in job["specs"]:
+            # the restart file is the crash-recovery reference: it must be
+            # current whatever the print frequency
+            spec["screen"] = rng.choice([1, 1, 0, 2, 5, 10])
             if rng.random() < 0.35:
                 j = rng.randint(2, 12)
                 point = rng.choice(["after_write_to_pathens",
